@@ -2,4 +2,5 @@ package main
 
 import (
 	_ "verif/props/c34"
+	_ "verif/props/c35"
 )
